@@ -32,6 +32,30 @@ type faultSpec struct {
 	triggered int
 }
 
+func (r *fileRecorder) setFaults(f []*faultSpec) {
+	r.mu.Lock()
+	r.faults = f
+	r.mu.Unlock()
+}
+
+func (r *fileRecorder) swapFaults(f []*faultSpec) []*faultSpec {
+	r.mu.Lock()
+	old := r.faults
+	r.faults = f
+	r.mu.Unlock()
+	return old
+}
+
+func (r *fileRecorder) triggered() int {
+	r.mu.Lock()
+	defer r.mu.Unlock()
+	n := 0
+	for _, f := range r.faults {
+		n += f.triggered
+	}
+	return n
+}
+
 type fileRecorder struct {
 	mu     sync.Mutex
 	ops    []fileOp
@@ -131,8 +155,10 @@ func (f *recFile) Close() error {
 
 func (f *recFile) Stat() (os.FileInfo, error) {
 	if f.r.shouldFail("stat", f.name, 0, 0) {
+		f.r.add(fileOp{File: f.name, Kind: "stat", Err: true})
 		return nil, fmt.Errorf("injected stat failure")
 	}
+	f.r.add(fileOp{File: f.name, Kind: "stat"})
 	return f.f.Stat()
 }
 
